@@ -13,7 +13,7 @@
 (* observed instruction sizes) and compared field by field: `drift` in the *)
 (* verdict - never a violation.                                            *)
 (***************************************************************************)
-EXTENDS Asm, IOUtils
+EXTENDS Asm, AsmRw, IOUtils
 
 Traces == ndJsonDeserialize(IOEnv.TRACE_FILE)
 VARIABLE tid
@@ -23,7 +23,7 @@ ParamsOf(t) ==
   LET ix == Pairs(t.names)
   IN  [tu |-> t.tu, au |-> t.au, icfi |-> t.icfi, sfx |-> t.sfx, ms |-> Range(t.ms),
        plt |-> t.pie /\ t.fmt = "elf" /\ t.isa \in {"x64", "ia32"},
-       mips |-> t.isa = "mips32",
+       isa |-> t.isa, mips |-> t.isa = "mips32",
        rn |-> [l \in NameU |-> t.names[ix[l]][2]]]
 \* tokens with the sizes the disassembler observed for the instructions
 \* (nothing to observe after a refusal: the nominal sizes are kept)
@@ -178,6 +178,7 @@ Clauses(X) ==
   LET dom == InDomain(X.Vw) /\ InDomain(X.Vc)
       ok == dom /\ SomeOk(X)
   IN  << <<"C12_Completes", dom, Completes(X.Vw)>>,
+         <<"C12_TargetsNoOffset", dom /\ HasTargetOffset(X.Vw), C12_TargetsNoOffset(X.Vw) /\ C12_TargetsNoOffset(X.Vc)>>,
          <<"C12_Decode", ok, AllRuns(X, LAMBDA V, r : C12_Decode(V, r.dec))>>,
          <<"C12_Tiling", ok, AllRuns(X, LAMBDA V, r : C12_Tiling(V))>>,
          <<"C12_TerminatorsEndBlocks", ok, AllRuns(X, LAMBDA V, r : C12_TerminatorsEndBlocks(V))>>,
@@ -226,11 +227,39 @@ Verdict(t) ==
        drift |-> Drift(X),
        exc |-> X.W.exc]
 
+(***************************************************************************)
+(* Traces of kind "rwx": several patches in one RewritingContext.apply()   *)
+(* (AsmRw.tla); the symbol table of the rewritten module is judged.        *)
+(***************************************************************************)
+RwView(t) ==
+  LET ix == Pairs(t.names)
+  IN  [ops |-> t.ops, syms |-> t.syms, exc |-> t.exc, rn |-> [l \in RwTemp |-> t.names[ix[l]][2]]]
+\* Level B drift: the suffix the model's numbering predicts for every operation
+RwDrift(t) ==
+  LET S == RwView(t)
+      bad == {q \in DOMAIN t.mids :
+                RwSuffixes(S, t.mids[q][1]) \notin {{}, {"_" \o ToString(t.mids[q][2])}}}
+  IN  IF t.exc = "" /\ bad # {} THEN <<"rewrite", "suffix", ToString(t.syms)>> ELSE <<>>
+VerdictRw(t) ==
+  LET S == RwView(t)
+      dom == HasAbi(t)
+      okc == C13_UniqueAcrossPatches(S)
+  IN  [id |-> t.id,
+       indomain |-> IF dom THEN <<"C13_UniqueAcrossPatches">> ELSE <<>>,
+       failed |-> IF dom /\ ~okc
+                  THEN <<[clause |-> "C13_UniqueAcrossPatches",
+                          diff |-> [exc |-> t.exc, syms |-> t.syms, order |-> t.order], kf |-> {}]>>
+                  ELSE <<>>,
+       drift |-> IF dom THEN RwDrift(t) ELSE <<>>,
+       exc |-> t.exc]
+VerdictOf(t) == IF t.kind = "rwx" THEN VerdictRw(t) ELSE Verdict(t)
+
 TInit == /\ tid = 1
+         /\ RwInit
          /\ par = [x |-> 0] /\ prog = <<>> /\ inp = <<>> /\ ph = "trace" /\ st = InitState /\ fin = InitState
 TNext == /\ tid <= Len(Traces)
-         /\ PrintT("VERDICT " \o ToJson(Verdict(Traces[tid])))
+         /\ PrintT("VERDICT " \o ToJson(VerdictOf(Traces[tid])))
          /\ tid' = tid + 1
-         /\ UNCHANGED vars
+         /\ UNCHANGED vars /\ UNCHANGED rwVars
 AllConsumed == TLCGet("stats").diameter - 1 = Len(Traces)
 =============================================================================
